@@ -39,6 +39,8 @@ pub enum Stakes {
     Dominant { n: u16, pct: u8 },
     /// stakes chosen so that some validators hold exactly m/k of the total, others one unit off
     Boundary { k_units: Vec<u8>, off: Vec<i8>, scale: u16 },
+    /// token-scale stakes: v[i] * 10^unit_log10 (total below 2^64, but stake * k beyond it)
+    Large { v: Vec<u8>, unit_log10: u8 },
 }
 
 #[derive(Clone, Debug, Serialize, Deserialize)]
@@ -68,6 +70,15 @@ fn stake_vec(s: &Stakes, k: usize) -> Vec<u64> {
         Stakes::HeavyTail { n, seed } => {
             let r = crate::fixtures::shreds::prng_bytes(*seed, (*n as usize).max(1) * 2);
             r.chunks(2).map(|c| if c[0] < 20 { 1000 + c[1] as u64 * 50 } else { 1 + (c[1] as u64 % 20) }).collect()
+        }
+        Stakes::Large { v, unit_log10 } => {
+            let unit = 10u64.pow((*unit_log10 as u32).clamp(9, 16));
+            let v: Vec<u64> = v.iter().take(15).map(|x| (*x as u64).clamp(1, 100) * unit).collect();
+            if v.is_empty() {
+                vec![unit]
+            } else {
+                v
+            }
         }
         Stakes::Dominant { n, pct } => {
             let n = (*n as usize).max(2);
@@ -201,7 +212,7 @@ impl Property for C17 {
     }
     fn rule(&self) -> String {
         "cases: each of the twelve shipped strategies (5 single-validator, 7 committee) over 1..2000 validators (<= 40 for \
-         the cubic Turbine sampler) with stake patterns equal / small integers / heavy-tailed / one dominant / boundary \
+         the cubic Turbine sampler) with stake patterns equal / small integers / heavy-tailed / one dominant / token-scale (up to 1e18 per validator, stake*k beyond 2^64) / boundary \
          (stakes exactly on m/k of the total and one unit off), committee sizes 1..200 (64 emphasised), several seeded \
          draws. Oracle: construction and sampling do not panic; committee length = quorum_size() = configured k; members \
          < n; same validator set + same seed => same committee (same instance twice, and a second instance); \
@@ -239,6 +250,7 @@ impl Property for C17 {
             2 => prop::collection::vec(1u8..=20, 1..60).prop_map(|v| Stakes::Small { v }),
             2 => (n.clone(), any::<u64>()).prop_map(|(n, seed)| Stakes::HeavyTail { n, seed }),
             1 => (n, 50u8..99).prop_map(|(n, pct)| Stakes::Dominant { n, pct }),
+            2 => (prop::collection::vec(prop_oneof![1u8..=100, Just(1u8), Just(100u8)], 1..=15), 12u8..=16).prop_map(|(v, unit_log10)| Stakes::Large { v, unit_log10 }),
             3 => (prop::collection::vec(any::<u8>(), 1..40), prop::collection::vec(-1i8..=1, 0..40), 1u16..1000).prop_map(|(k_units, off, scale)| Stakes::Boundary { k_units, off, scale }),
         ];
         (sampler, stakes, prop_oneof![3 => Just(64u16), 3 => 1u16..=200, 1 => 1u16..=8], any::<u64>(), 1u8..=4, 10u16..60, 1u8..30)
@@ -256,6 +268,10 @@ impl Property for C17 {
             c(Sampler::Turbine, Stakes::Small { v: vec![18, 12] }, 64),
             // fixed defect: exact seat boundary lost in floating point
             c(Sampler::Fa1StakeWeighted, Stakes::EqualDividing { n: 49, m: 1, s: 1 }, 49),
+            // fixed defect (afe51c6): samples * total_stake overflowed u64 for token-scale stakes
+            c(Sampler::Fa1Partition, Stakes::Large { v: vec![100], unit_log10: 16 }, 64),
+            c(Sampler::Fa1StakeWeighted, Stakes::Large { v: vec![100, 1, 1, 1, 1, 1, 1, 1, 1, 1, 1], unit_log10: 16 }, 64),
+            c(Sampler::Fa2, Stakes::Large { v: vec![100, 1, 1, 1, 1, 1, 1, 1, 1, 1, 1], unit_log10: 16 }, 64),
         ]
     }
     fn run(&self, case: &Case) -> Outcome {
